@@ -789,7 +789,9 @@ def ld_build(ctx, t0sz, t1sz, va, leaf, invalid_at, af, ap21, nsb, aptable, nsta
             wr64(cpu, a, 0xFFFFFFFFFFFFFFFD if (level == 3 and inv_form) else 0xFFFFFFFFFFFFFFFC, ee)
             break
         if level == leaf:
-            wr64(cpu, a, ld_desc(pa_base, "block" if level < 3 else "page", af, ap21, nsb, attridx), ee)
+            # SH<1:0>: outer / non / inner shareable on a deterministic diagonal (0b01 is UNPREDICTABLE)
+            sh = (0b10, 0b00, 0b11)[(attridx + ap21 + nsb + leaf + aptable) % 3]
+            wr64(cpu, a, ld_desc(pa_base, "block" if level < 3 else "page", af, ap21, nsb, attridx, sh=sh), ee)
             break
         nxt = LD_L2 if level == 1 else LD_L3
         # hierarchical attributes on the first table descriptor of the chain only
